@@ -68,6 +68,8 @@ Proof.
   exists ([24 * n + l_len r] ++ lab ++ p). split.
   - unfold construct_lroute. rewrite Hc. cbn [bind]. rewrite HlenN.
     replace (8 * (3 * n) + l_len r) with (24 * n + l_len r) by lia.
+    assert (Hok : pfx_len_ok v6 (l_len r) = true) by (unfold pfx_len_ok; destruct v6; cbn [abits] in Hl; lia).
+    rewrite Hok. cbn [negb].
     destruct (255 <? 24 * n + l_len r) eqn:E; [apply N.ltb_lt in E; lia|].
     fold (pfx_octets v6 (l_addr r) (l_len r)). rewrite pfx_octets_eq by exact Hl. reflexivity.
   - split; [discriminate|]. intros f rest.
